@@ -1,0 +1,6 @@
+//go:build !verif
+
+package remote
+
+// verifSchedPoint is a no-op unless built with -tags verif (see verif_export_c18.go).
+func verifSchedPoint(string) {}
